@@ -5,6 +5,7 @@
 From Coq Require Import List Bool Arith String Ascii.
 From CliUtils Require Import Base.Strings Model.IdCodec Model.DependsOnCodec
      Proofs.StringsProofs Proofs.IdCodecProofs Proofs.DependsOnProofs Proofs.C15Domain.
+From CliUtils Require Import Generated.SourceTables Proofs.SourceTablesAgree.
 Import ListNotations.
 Local Open Scope string_scope.
 
@@ -177,6 +178,17 @@ Theorem C15_depset_error_not_partial : forall s piece, In piece (split "," s) ->
   parse_dep_set s = Err.
 Proof. intros s piece. exact (parse_all_err (split "," s) piece). Qed.
 
+(* the RBAC kind set and the separators of the models are the ones extracted
+   from pkg/object/objmetadata.go and pkg/object/dependson/strings.go on this run *)
+Theorem C15_constants_from_source :
+  (forall g k, IdCodec.is_rbac g k =
+     existsb (fun p => String.eqb g (fst p) && String.eqb k (snd p)) src_rbac_group_kinds) /\
+  IdCodec.field_separator = src_field_separator /\ IdCodec.colon_transcoded = src_colon_transcoded /\
+  DependsOnCodec.annotation_separator = src_dep_annotationSeparator /\
+  DependsOnCodec.dep_field_separator = src_dep_fieldSeparator /\
+  DependsOnCodec.namespaces_field = src_dep_namespacesField.
+Proof. split; [exact rbac_kinds_from_source|exact separators_from_source]. Qed.
+
 Print Assumptions C15_roundtrip.
 Print Assumptions C15_roundtrip_domain.
 Print Assumptions C15_store_rejects_or_roundtrips.
@@ -247,3 +259,4 @@ Example C15_ex_dep : ref_ok ex_role = true /\ ref_ok ex_deploy = true
      = Ok [ex_role; ex_deploy]
   /\ forallb item_ok [(" ", ex_role, " "); (" ", ex_deploy, "")] = true.
 Proof. repeat split; reflexivity. Qed.
+Print Assumptions C15_constants_from_source.
